@@ -13,8 +13,9 @@ from collections import Counter
 from typing import Any, Callable, Dict, Iterable, List, Optional, Tuple
 
 VERIF_DIR = os.path.dirname(os.path.dirname(os.path.abspath(__file__)))
-EVIDENCE_DIR = os.path.join(VERIF_DIR, "evidence")
-REPLAY_DIR = os.path.join(VERIF_DIR, "replays")
+# (overridable so that runs against seeded / scratch trees do not clobber the committed evidence)
+EVIDENCE_DIR = os.environ.get("VERIF_EVIDENCE_DIR") or os.path.join(VERIF_DIR, "evidence")
+REPLAY_DIR = os.environ.get("VERIF_REPLAY_DIR") or os.path.join(VERIF_DIR, "replays")
 FINDINGS_FILE = os.path.join(VERIF_DIR, "known_findings.json")
 
 
